@@ -18,7 +18,8 @@ def consTokens : List Conclusion → List String
 def sepTokens (cs : List Conclusion) : List String :=
   match cs with | [] => [] | _ :: _ => consTokens cs ++ ["and"]
 
-/-- a conclusion over the engine: output variable, registered hedges, a term of that variable -/
+/-- a conclusion over the engine: output variable (found by `findOut`, i.e. with at least one term), registered hedges,
+    a term of that variable -/
 def ConcValid (e : EngineInfo) (c : Conclusion) : Prop :=
   (e.findOut c.v).isSome = true ∧ (∀ h ∈ c.hs, e.hedges.contains h = true) ∧
   ∃ t, c.t = some t ∧ (((e.findOut c.v).map (·.terms)).getD []).contains t = true
